@@ -177,7 +177,8 @@ def r8_1(ctx, R):
     ctx.floor("R8.1", "manual-Unpin-impls", m, 6)
 
 
-ALLOWED_CALLS = r"core::slice::<impl \[T\]>::(get_mut|iter_mut|get|iter|len|is_empty|first_mut|last_mut|get_unchecked_mut)$|" \
+ALLOWED_CALLS = r"core::slice::<impl \[T\]>::(get_mut|iter_mut|get|iter|len|is_empty|first_mut|last_mut|get_unchecked_mut|split_at_mut)$|" \
+                r"core::ops::Index(Mut)?::index(_mut)?$|as core::ops::Index(Mut)?<.*>>::index(_mut)?$|core::slice::index::|" \
                 r"core::pin::Pin::<Ptr>::new_unchecked$|core::iter::Iterator::by_ref$|" \
                 r"<core::slice::IterMut<'a, T> as core::iter::Iterator>::next$|<&mut I as core::iter::Iterator>::next$|" \
                 r"<I as core::iter::IntoIterator>::into_iter$|core::ops::Try>::branch$|FromResidual|" \
